@@ -26,7 +26,7 @@
 //!   wo                              the driver sends a message larger than the copy receiver's scratch buffer, then do_work
 //!   we <event>                      the driver transmits one event, then do_work:
 //!        pr corr orig stream session limit chstat | xr id stream session limit chstat | sr corr chstat | os corr
-//!        er corr code | ai corr session subpos subreg | ui corr subreg | cr corr cid | uc corr cid | ct client_id
+//!        er corr code (code 4 = channel endpoint error: corr is a channel status indicator id) | ai corr session subpos subreg | ui corr subreg | cr corr cid | uc corr cid | ct client_id
 //! Observation: `[(result, [callbacks], [commands]); ...]`, one element per op, in the syntax of Model/Conductor.v.
 //! An op that does not come back within the watchdog time is reported as `(Hang, [], [])` and ends the case
 //! (its thread stays parked on the mutex it dead-locked on); a panicking op is `(Panic, ..)` and ends the case.
@@ -101,6 +101,10 @@ fn on_new_sub(c: CString, stream: i32, corr: i64) {
     log(format!("CbNewSub {} {} {}", z(corr), z(stream as i64), z(chan_of(c.as_bytes()))));
 }
 fn on_error(e: AeronError) {
+    if let AeronError::ChannelEndpointException(id, _) = &e {
+        log(format!("CbErr (EChannelEndpoint {})", z(*id)));
+        return;
+    }
     let n = match e {
         AeronError::Generic(GenericError::TimeoutBetweenServiceCallsOverTimeout(_)) => "EServiceTimeout",
         AeronError::DriverTimeout(DriverInteractionError::WasInactive(_)) => "EWasInactive",
